@@ -151,7 +151,9 @@ func (p *Pool) Put(v interface{}) {
 	vs.Touch(p, "pool.put")
 	// A scheduling point AFTER the release: whatever the caller still does with the object it
 	// has just given back can be overtaken by another thread that gets it from the pool.
-	if !vs.Aborting() {
+	// (Only in the scenarios that explore pool behaviour - PoolChoice - to keep the other state
+	// spaces small.)
+	if PoolChoice && !vs.Aborting() {
 		vs.BlockObj("pool.put.done", p, func() bool { return true })
 	}
 }
